@@ -5,6 +5,8 @@ ROOT = os.path.dirname(os.path.dirname(os.path.abspath(__file__)))
 TECH = ("bounded symbolic execution of the real Python code (CrossHair 0.0.110 + z3): per-obligation verdict over all values "
         "inside the stated bound, reachability twin per obligation, counterexamples replayed on the real implementation")
 CHECKS = {
+ "C02": ("Every adverb (each, each-2, each-left/right, each-pair, each-index, over, over-neutral, scan-over, scan-over-neutral, iterate, scan-iterating, converge, while, scan-converging, scan-while) is run through the real parser, chain_adverbs and eval_adverb_* code as program text over symbolic operands (two symbolic integer vectors of symbolic length, a symbolic atom/neutral element, the 2xN matrix and nested vectors built from them, strings of every length, dictionaries) for operator verbs (shortcut paths), Klong lambdas, a projection and imported Python callables; the result must equal the adverb's definition written out as explicit loops over a Python model of the verb. The user verb is linear and non-associative, so equality for all integers is equality of the application tree. Two-adverb chains are included.",
+         "NumPy is replaced by vt.symnp (conformance-gated, witnesses replayed on real NumPy); the expression compiler is disabled in this check (C05 covers it); empty right operands of the neutral/left/right adverbs, on which the reference is silent, are excluded"),
  "C01": ("Every primitive verb reachable from the interpreter's own dispatch tables is executed symbolically (real eval_monad_*/eval_dyad_*, vec_fn/vec_fn2/rec_fn, kg_asarray, kg_equal, kg_argsort) over a list-backed NumPy model: symbolic counts and indices, symbolic vector length (<=3 quick, <=5 thorough), unbounded symbolic integer elements, strings of every length, nesting templates up to depth 3 (atom, vectors, nested, ragged, matrix) with symbolic leaves, matrices with symbolic leaves, and solver-enumerated small concrete domains for the real-valued kind rules; the result must equal, in structure, elements and integer/real/char/string kind, a loop-and-index reference written from the verb's docstring.",
          "NumPy is replaced by vt.symnp (validated on the repo's 1400+ suite expressions by the conformance gate and by replay of every witness on real NumPy); integers are mathematical; reals only as concrete probes; torch, int64 overflow, tie order of grade, operands on which the reference is silent are outside the claim"),
  "C13": ("Claimed in part: (a) n frames written by the real stream_send_msg and read by the real stream_recv_msg with symbolic payload bytes/lengths and a symbolic cut point come back one by one, intact, in order, and a cut stream raises and never yields an unsent message; (b) every server command class reaches exactly its branch and completes the result future exactly once with the right value/exception, popping the connection handle.",
